@@ -1,4 +1,5 @@
 from __future__ import annotations
+import copy
 from typing import TYPE_CHECKING
 from dataclasses import dataclass, field
 from enum import Enum
@@ -138,7 +139,8 @@ class DENRequest:
             # Data elements values
             detection_time=service.detection_time,
             time_period=service.denm_duration,
-            event_position=service.event_position,
+            # snapshot: the service keeps updating its own event_position for later events
+            event_position=copy.deepcopy(service.event_position),
             # Specific use cases data elemenets
             rhs_cause_code="emergencyVehicleApproaching95",
             rhs_subcause_code=1,  # [OPTIONAL]
